@@ -157,7 +157,8 @@ def strat_multi(draw, tier="quick"):
     fams = draw(st.sampled_from([("line", "quad"), ("line", "line"), ("quad", "cubic"), ("const", "sincos"), ("line", "sincos")]))
     members = []
     for i, fam in enumerate(fams):
-        m = draw(S.xy_spec(families=[fam], costs=("chi2",), n_sources=(1, 2), x_errors=False, model_sources=False, constraints=False, fixed=False, minimizers=(mini,)))
+        m = draw(S.xy_spec(families=[fam], costs=("chi2",), n_sources=(1, 2), x_errors=False, model_sources=False, constraints=False, fixed=False, minimizers=(mini,),
+                           permute_params=True))  # the position of a parameter in a member differs from its position in the combined list
         for s in m["sources"]:
             s["name"] = f"m{i}{s['name']}"
         members.append(m)
